@@ -460,8 +460,17 @@ package wallet
 //@   assigns nothing
 //
 // appliedEvents (assumed here: deterministic in its arguments, writes nothing the caller sees)
-//@ func appliedEvents
+// ... except for the payouts of resolved v1 contracts, where which list is read decides what the
+// ledger shows: a valid-proof payout id is only computed for a contract resolved by a valid proof
+// and for an index whose valid-proof output pays the wallet; a missed-proof payout id only for an
+// expired contract and an index whose missed-proof output pays the wallet.
+//@ extern (types.FileContractID).ValidOutputID pure
+//@   precall [own-valid-output] infunc("appliedEvents") ==> callerlocal("fced").Valid && 0 <= i && i < len(callerlocal("fce").FileContract.ValidProofOutputs) && callerlocal("fce").FileContract.ValidProofOutputs[i].Address == callerlocal("walletAddress")
+//@ extern (types.FileContractID).MissedOutputID pure
+//@   precall [own-missed-output] infunc("appliedEvents") ==> !callerlocal("fced").Valid && 0 <= i && i < len(callerlocal("fce").FileContract.MissedProofOutputs) && callerlocal("fce").FileContract.MissedProofOutputs[i].Address == callerlocal("walletAddress")
+//@ func appliedEvents props C06
 //@   assigns nothing
+//@   frame assumed
 //
 // Applying a block: first the proofs of the stored elements are moved to the new state, then
 // the store gets the block's index and timestamp, the events computed from this very update,
